@@ -11,6 +11,7 @@ import (
 	"encoding/json"
 	"encoding/pem"
 	"fmt"
+	"math/big"
 	"math/rand/v2"
 	"sort"
 	"strings"
@@ -48,6 +49,27 @@ func newInputGen(r *rand.Rand) *inputGen {
 	ig.fams["csr"] = append(append([][]byte{}, co.CSRs...), z.CSRs...)
 	ig.fams["crl"] = append(append([][]byte{}, capSize(co.CRLs, 20000)...), z.CRLs...)
 	ig.fams["spki"] = append(append([][]byte{}, co.SPKIs...), z.SPKIs...)
+	{ // SPKI of every pool key type (RSA, ECDSA P-224..P-521, Ed25519, DSA) and X25519
+		seen := map[string]bool{}
+		all, _ := signers()
+		for _, sg := range all {
+			k := sg.kind
+			if sg.kind == "ec" {
+				k += sg.ec.Curve.Params().Name
+			}
+			if sg.kind == "rsa" {
+				k += itoa(sg.rsa.N.BitLen())
+			}
+			if sg.kind == "dsa" {
+				k += itoa(sg.dsa.P.BitLen())
+			}
+			if !seen[k] {
+				seen[k] = true
+				ig.fams["spki"] = append(ig.fams["spki"], sg.spki().Encode())
+			}
+		}
+		ig.fams["spki"] = append(ig.fams["spki"], der.Seq(der.Seq(der.OID(oidX25519...)), der.Bits(ig.g.bytes(32), 0)).Encode())
+	}
 	ig.fams["pkcs1priv"] = append(append([][]byte{}, co.PKCS1Priv...), z.PKCS1Priv...)
 	ig.fams["pkcs1pub"] = append(append([][]byte{}, co.PKCS1Pub...), z.PKCS1Pub...)
 	ig.fams["pkcs8"] = append(append([][]byte{}, co.PKCS8...), z.PKCS8...)
@@ -186,6 +208,142 @@ func (ig *inputGen) fieldAwareCert(root *der.Node) string {
 	return ""
 }
 
+var keyFamilies = map[string]bool{"spki": true, "pkcs1priv": true, "pkcs1pub": true, "pkcs8": true, "ecpriv": true}
+
+// fieldAwareKey applies one of the key-format mutators: edits of the OCTET STRING / BIT STRING / INTEGER leaves
+// (padding, growth, shrinking), curve and parameter swaps, optional fields, versions, PKCS#8 nesting. The tree
+// reaches into encapsulating strings (the ECPrivateKey / RSAPrivateKey inside PKCS#8, the RSAPublicKey inside an
+// SPKI), and re-encoding fixes every enclosing length.
+func (ig *inputGen) fieldAwareKey(root *der.Node) string {
+	r := ig.r
+	type leafSlot struct{ n *der.Node }
+	var leaves []*der.Node
+	var oids, optionals []slotRef
+	var versions []*der.Node
+	root.Walk(func(n, p *der.Node, idx, depth int) {
+		if n.Literal != nil {
+			return
+		}
+		if !n.HasKids() && n.Class == der.ClassUniversal && !n.Constructed &&
+			(n.Tag == der.TagInteger || n.Tag == der.TagOctetString || n.Tag == der.TagBitString) {
+			leaves = append(leaves, n)
+		}
+		if p != nil && n.IsPrimitive(der.TagOID) {
+			oids = append(oids, slotRef{p, idx})
+		}
+		if p != nil && (n.Class == der.ClassContext || n.IsUniversal(der.TagNull) || idx >= 2 && idx == len(p.Children)-1) {
+			optionals = append(optionals, slotRef{p, idx})
+		}
+		if p != nil && idx == 0 && n.IsPrimitive(der.TagInteger) && len(n.Content) == 1 {
+			versions = append(versions, n)
+		}
+	})
+	_ = leafSlot{}
+	switch op := r.IntN(12); {
+	case op < 7 && len(leaves) > 0:
+		n := leaves[r.IntN(len(leaves))]
+		head := 0
+		if n.Tag == der.TagBitString && len(n.Content) > 0 {
+			head = 1 // keep the unused-bits octet in front
+		}
+		body := n.Content[head:]
+		pre := append([]byte(nil), n.Content[:head]...)
+		switch op {
+		case 0, 1: // prepend 1..8 zero octets
+			k := 1 + r.IntN(8)
+			n.Content = append(append(pre, make([]byte, k)...), body...)
+			return "key:prepend-zeros(" + itoa(k) + ")"
+		case 2: // prepend 1..8 0xff octets
+			k := 1 + r.IntN(8)
+			pad := make([]byte, k)
+			for i := range pad {
+				pad[i] = 0xff
+			}
+			n.Content = append(append(pre, pad...), body...)
+			return "key:prepend-ff(" + itoa(k) + ")"
+		case 3: // append 1..8 octets
+			k := 1 + r.IntN(8)
+			n.Content = append(append(pre, body...), ig.g.bytes(k)...)
+			return "key:append(" + itoa(k) + ")"
+		case 4: // shrink to 0 / 1 / size-1 octets
+			l := []int{0, 1, len(body) - 1}[r.IntN(3)]
+			if l < 0 {
+				l = 0
+			}
+			if l > len(body) {
+				l = len(body)
+			}
+			n.Content = append(pre, body[:l]...)
+			return "key:shrink(" + itoa(l) + ")"
+		case 5: // drop leading octets (a stripped scalar)
+			k := 1 + r.IntN(3)
+			if k > len(body) {
+				k = len(body)
+			}
+			n.Content = append(pre, body[k:]...)
+			return "key:strip-leading(" + itoa(k) + ")"
+		default: // zero the leading octets in place (value stays below the group order, length stays)
+			k := 1 + r.IntN(4)
+			nb := append([]byte(nil), body...)
+			for i := 0; i < k && i < len(nb); i++ {
+				nb[i] = 0
+			}
+			n.Content = append(pre, nb...)
+			return "key:zero-leading(" + itoa(k) + ")"
+		}
+	case op == 7 && len(oids) > 0: // curve / algorithm OID swap, named curve -> explicit parameters
+		s := oids[r.IntN(len(oids))]
+		switch r.IntN(4) {
+		case 0:
+			s.p.Children[s.i] = der.OID([][]int{oidP224, oidP256, oidP384, oidP521, {1, 3, 132, 0, 10}, {1, 2, 3}}[r.IntN(6)]...)
+			return "key:curve-oid"
+		case 1:
+			s.p.Children[s.i] = der.OID([][]int{oidRSA, oidEC, oidEd25519, oidX25519, oidDSA, oidRSAPSS, {1, 3, 101, 113}}[r.IntN(7)]...)
+			return "key:alg-oid"
+		case 2: // explicit ECParameters instead of a named curve
+			s.p.Children[s.i] = der.Seq(der.Int(1), der.Seq(der.OID(1, 2, 840, 10045, 1, 1), der.BigInt(elliptic256P())), der.Seq(der.Octets(ig.g.bytes(32)), der.Octets(ig.g.bytes(32))),
+				der.Octets(ig.g.bytes(65)), der.Int(int64(1+r.IntN(1000))), der.Int(1))
+			return "key:explicit-curve-parameters"
+		default:
+			s.p.Children[s.i] = der.Null()
+			return "key:oid->null"
+		}
+	case op == 8 && len(optionals) > 0: // drop an optional field
+		s := optionals[r.IntN(len(optionals))]
+		s.p.Children = append(s.p.Children[:s.i:s.i], s.p.Children[s.i+1:]...)
+		return "key:drop-optional"
+	case op == 9 && len(versions) > 0: // version 0 / 1 / 2 / 3
+		n := versions[r.IntN(len(versions))]
+		n.Content = []byte{byte(r.IntN(4))}
+		return "key:version(" + itoa(int(n.Content[0])) + ")"
+	case op == 10: // nest: the whole structure as the private key of a PKCS#8 wrapper (PKCS#8 in PKCS#8, SEC1 / PKCS#1 in PKCS#8)
+		alg := der.Seq(der.OID([][]int{oidRSA, oidEC, oidEd25519}[r.IntN(3)]...))
+		if r.IntN(2) == 0 {
+			alg.Children = append(alg.Children, []*der.Node{der.Null(), der.OID(oidP256...), der.OID(oidP384...)}[r.IntN(3)])
+		}
+		inner := root.Clone()
+		*root = *der.Seq(der.Int(0), alg, der.OctetsWrap(inner))
+		return "key:wrap-in-pkcs8"
+	case op == 11: // add an optional field: public key [1] / parameters [0] / attributes [0]
+		if root.HasKids() {
+			root.Children = append(root.Children, []*der.Node{der.Explicit(0, der.OID(oidP256...)), der.Explicit(1, der.Bits(ig.g.bytes(65), 0)),
+				der.CtxCons(0, der.Seq(der.OID(1, 2, 3), der.Set(der.Int(1)))), der.Seq(der.Seq(der.BigInt(elliptic256P()), der.Int(3), der.Int(5)))}[r.IntN(4)])
+			return "key:add-optional"
+		}
+	}
+	return ""
+}
+
+type slotRef struct {
+	p *der.Node
+	i int
+}
+
+func elliptic256P() *big.Int {
+	p, _ := new(big.Int).SetString("ffffffff00000001000000000000000000000000ffffffffffffffffffffffff", 16)
+	return p
+}
+
 // mutateDER applies 1–4 stacked mutations to a DER seed.
 func (ig *inputGen) mutateDER(seed []byte, fam string) ([]byte, string) {
 	r := ig.r
@@ -208,6 +366,9 @@ func (ig *inputGen) mutateDER(seed []byte, fam string) ([]byte, string) {
 		d := ""
 		if fam == "cert" && r.IntN(5) == 0 {
 			d = ig.fieldAwareCert(root)
+		}
+		if keyFamilies[fam] && r.IntN(2) == 0 {
+			d = ig.fieldAwareKey(root)
 		}
 		for try := 0; d == "" && try < 6; try++ {
 			d = m.Mutate(root)
